@@ -1,7 +1,8 @@
 --------------------------- MODULE RecordIds_Trace ---------------------------
 (* Trace validation for C16.  Identifiers travel as arrays of character codes.   *)
 (*   ids:    pre_process_sequences on a list of records: allow, in <<[id, name]>>, *)
-(*           res |-> [exc, v |-> <<[id, name, orig]>>]                              *)
+(*           res |-> [exc, v |-> <<[id, name, orig]>>], saved: the same read back   *)
+(*           from a results file                                                     *)
 (*   fix:    fix_record_name_id on one record with a given set of taken ids         *)
 (*   unique: generate_unique_id(prefix, existing, max_length)                       *)
 (*   genes:  Record.add_cds_feature for a list of genes [tag, pid, gene, loc];      *)
@@ -20,6 +21,12 @@ IdsEventFailed(ev) ==
     IF ev.res.exc \in Refusal THEN (IF RejectionJustified(ev.in) THEN {} ELSE {"ids/refused_only_without_usable_id"})
     ELSE IF ev.res.exc # "" THEN {"ids/no_exception:" \o ev.res.exc}
     ELSE Tag("ids", IdsFailed(ev.in, ev.res.v, ev.allow))
+         (* a record whose identifier was changed remembers its original identifier - also in the results file a later
+            run reuses (saved = the records read back from it), whether or not the record was analysed *)
+         \cup (IF ev.saved.exc # "" THEN {"ids/results_file_no_exception:" \o ev.saved.exc}
+               ELSE IF Len(ev.saved.v) # Len(ev.res.v) THEN {"ids/results_file_holds_every_record"}
+               ELSE IF \E i \in DOMAIN ev.res.v : ev.saved.v[i].id # ev.res.v[i].id \/ ev.saved.v[i].orig # ev.res.v[i].orig
+                    THEN {"ids/original_id_survives_the_results_file"} ELSE {})
 
 FixEventFailed(ev) ==
     IF ev.res.exc # "" THEN {"fix/no_exception:" \o ev.res.exc}
